@@ -182,14 +182,19 @@ theorem c16_no_logger (ev : String → Outcome) (tpl tp ctx : String) (r : Rende
   have h0 : loggerFound .absent = false := rfl
   simp [logActionWith, snapshotLogBranch, logActionAttach, procLog, hr, logResultProcess, h0]
 
-/-- a registered logger object that is falsy (`__len__` 0, `__bool__` False) is treated as absent, because
-    `LogActionResult.process` tests the logger's truthiness (candidate finding `C16/falsy-logger-skipped`):
-    negation of "the message goes to the configured tracepoint logger", on a witness. -/
-theorem c16_falsy_logger_witness :
-    (logActionWith .falsy (fun _ => ⟨false, false, "int", "5", .int 5, false⟩) "n={n}" "tp" "ctx" false).logger = [] ∧
-    (logActionWith .plain (fun _ => ⟨false, false, "int", "5", .int 5, false⟩) "n={n}" "tp" "ctx" false).logger
-      = [[(.msg, "[deep] n=5"), (.tpId, "tp"), (.ctxId, "ctx")]] := by
-  decide
+/-- the configured tracepoint logger is found by identity (`is not None`, extracted), not by truthiness: a registered
+    logger object that happens to be falsy (`__len__` 0, `__bool__` False) receives the message like any other, and
+    only an absent logger is skipped. -/
+theorem c16_falsy_logger_still_logs :
+    loggerTest = .notNone ∧ (∀ lg, loggerFound lg = true ↔ lg ≠ .absent) ∧
+    (∀ (ev : String → Outcome) (tpl tp ctx : String) (collect : Bool),
+        logActionWith .falsy ev tpl tp ctx collect = logActionWith .plain ev tpl tp ctx collect) := by
+  refine ⟨rfl, ?_, ?_⟩
+  · intro lg; cases lg <;> decide
+  · intro ev tpl tp ctx collect
+    have h1 : loggerFound .falsy = true := by decide
+    have h2 : loggerFound .plain = true := by decide
+    simp [logActionWith, logResultProcess, h1, h2]
 
 theorem c16_snapshot_watches (ev : String → Outcome) (segs : List Seg) (hw : allWf segs) (hn : namesNonEmpty segs)
     (r : Rendered) (hr : render ev (String.ofList (unparse segs)) = .ok r) :
